@@ -1,5 +1,5 @@
 (* C03 — property theorems.  Only statements, `exact lemma`, Print Assumptions. *)
-From Sdns Require Import Common.Base Gen.C03 C03.Model C03.Proofs_Key C03.Proofs_Inj C03.Proofs_Store.
+From Sdns Require Import Common.Base Gen.C03 C03.Model C03.Proofs_Key C03.Proofs_Inj C03.Proofs_Store C03.Proofs_Failure.
 Open Scope N_scope.
 
 (* Names are keyed identically whether they arrive as wire labels or as
@@ -132,6 +132,52 @@ Theorem hit_implies_same_question_failure_wire :
     failure_wire_hit_ok fe w qtype qclass cd.
 Proof. exact failure_lookup_wire_sound. Qed.
 Print Assumptions hit_implies_same_question_failure_wire.
+
+(* the failure cache's audience over UPDATES.  ResponseWriter.WriteMsg's SERVFAIL exits (downstream
+   SERVFAIL, alias chase ending in SERVFAIL) file the failure under (canonical question, CD, normalised
+   scope of the REQUEST's audience); everything else retained afterwards was retained before (same
+   identity, possibly a renewed backoff generation).  For every key type, hash, salt and store. *)
+Theorem failure_filed_for_own_audience :
+  forall (K : Type) (K_eqb : K -> K -> bool) (H : bytes -> K) (salt_fq salt_fz : K -> K)
+         now initial maxttl q cd client id (s : store K) fe,
+    In fe (f_values K (writeback_failure K K_eqb H salt_fq now initial maxttl q cd client id s)) ->
+    (exists fe0, In fe0 (f_values K s) /\ f_same_ident fe0 fe) \/ failure_of fe q cd client id.
+Proof. exact writeback_failure_files_audience. Qed.
+Print Assumptions failure_filed_for_own_audience.
+
+(* ... hence a SERVFAIL produced while resolving for a subnet-scoped client or under CD is consumed
+   only by a lookup of the same canonical question, the same CD partition and the same normalised
+   audience (decoded route), *)
+Theorem failure_consumed_by_own_audience_msg :
+  forall (K : Type) (K_eqb : K -> K -> bool) (H : bytes -> K) (salt_fq salt_fz : K -> K)
+         now initial maxttl q cd client id (s : store K) q2 cd2 p2 fe,
+    failure_lookup K K_eqb H salt_fq salt_fz
+      (writeback_failure K K_eqb H salt_fq now initial maxttl q cd client id s) q2 cd2 p2 = Some fe ->
+    (exists fe0, In fe0 (f_values K s) /\ f_same_ident fe0 fe) \/
+    (f_id fe = id /\ canonical (q_name q2) = canonical (q_name q) /\ q_type q2 = q_type q /\ q_class q2 = q_class q /\
+     cd2 = cd /\ normalize_scope p2 = normalize_scope client).
+Proof. exact writeback_failure_consumed_msg. Qed.
+Print Assumptions failure_consumed_by_own_audience_msg.
+
+(* and on the wire route (requests without ECS) only when it was filed for the shared audience *)
+Theorem failure_consumed_by_own_audience_wire :
+  forall (K : Type) (K_eqb : K -> K -> bool) (H : bytes -> K) (salt_fq salt_fz : K -> K)
+         now initial maxttl q cd client id (s : store K) w qt qc cd2 fe,
+    failure_lookup_wire K K_eqb H salt_fq salt_fz
+      (writeback_failure K K_eqb H salt_fq now initial maxttl q cd client id s) w qt qc cd2 = Some fe ->
+    (exists fe0, In fe0 (f_values K s) /\ f_same_ident fe0 fe) \/
+    (f_id fe = id /\ normalize_scope client = None /\ qt = q_type q /\ qc = q_class q /\ cd2 = cd /\
+     wire_equals_pres w (canonical (q_name q)) = true).
+Proof. exact writeback_failure_consumed_wire. Qed.
+Print Assumptions failure_consumed_by_own_audience_wire.
+
+(* an ANSWER written back (any SCOPE the authority claims) never creates failure state *)
+Theorem answer_writeback_creates_no_failure :
+  forall (K : Type) (K_eqb : K -> K -> bool) (H : bytes -> K) (salt_fq salt_fz : K -> K)
+         min4 min6 q cd client bits id (s : store K) fe,
+    In fe (f_values K (writeback_answer K K_eqb H salt_fq salt_fz min4 min6 q cd client bits id s)) -> In fe (f_values K s).
+Proof. exact writeback_answer_values. Qed.
+Print Assumptions answer_writeback_creates_no_failure.
 
 (* subtree-cut lookups: a denied ancestor-or-self (label boundaries) of the same class *)
 Theorem hit_implies_same_question_cut :
